@@ -231,7 +231,10 @@ def main(ctx: Ctx) -> None:
         per = project(res["ops"])
         rech = B.user_modules(res["ref"].get("rechecked"))
         for m in rech:
-            changed = res["first"]["ifaces"].get(m) != res["ref"]["ifaces"].get(m)
+            # write_cache writes the data record unless the module started with a usable cache entry whose
+            # interface hash equals the new one (a module whose meta was abandoned has no old hash)
+            changed = (res["first"]["ifaces"].get(m) != res["ref"]["ifaces"].get(m)
+                       or m in (res["ref"].get("nometa") or []))
             had = m in res["first"]["ifaces"]
             lines.append(f"U 1 {int(changed)} 1 {'0' if had else '-'} 0000 {'0' if had else '-'} {'0,0' if had else '-'} {'0' if had else '-'}")
             keys.append((res, m, per.get(m, []), changed))
